@@ -4,6 +4,18 @@
 
 namespace ccl::semantic {
 
+// Note: cstList is not copy/move constructed because its type source must stay bound to this object
+RSCore::RSCore(const RSCore& rhs)
+  : identifiers{ rhs.identifiers }, thesaurus{ rhs.thesaurus }, schema{ rhs.schema } {
+  cstList = rhs.cstList;
+}
+
+// NOLINTNEXTLINE(bugprone-exception-escape)
+RSCore::RSCore(RSCore&& rhs) noexcept
+  : identifiers{ std::move(rhs.identifiers) }, thesaurus{ std::move(rhs.thesaurus) }, schema{ std::move(rhs.schema) } {
+  cstList = std::move(rhs.cstList);
+}
+
 const CstList& RSCore::List() const noexcept { return cstList; }
 const Thesaurus& RSCore::Texts() const noexcept { return thesaurus; }
 const Schema& RSCore::RSLang() const noexcept { return schema; }
